@@ -341,8 +341,12 @@ cdef class CellIndexingNNPS(NNPS):
         cdef double* xmax = self.xmax.data
         cdef double* xmin = self.xmin.data
 
-        self.J = <u_int> (1 + log2(ceil((xmax[0] - xmin[0])/self.cell_size)))
-        self.K = <u_int> (1 + log2(ceil((xmax[1] - xmin[1])/self.cell_size)))
+        # At least one cell along an axis, even when all particles share a
+        # coordinate (log2(0) is not a number of bits).
+        self.J = <u_int> (1 + log2(fmax(1.0,
+            ceil((xmax[0] - xmin[0])/self.cell_size))))
+        self.K = <u_int> (1 + log2(fmax(1.0,
+            ceil((xmax[1] - xmin[1])/self.cell_size))))
 
         for i in range(self.narrays):
             free(self.keys[i])
